@@ -2,6 +2,7 @@ import PGM.Generated.RegionGraphG
 import PGM.Proofs.RegionGraphGen
 import PGM.Proofs.RegionGraphGen2
 import PGM.Proofs.RegionGraphGen3
+import PGM.Proofs.RegionGraphGen4
 import PGM.Properties.C16
 import PGM.Properties.C17
 /-!
@@ -45,9 +46,12 @@ Counting numbers: `gen_counting_NM` / `gen_counting_NS` — the regenerated memo
 look-up whenever the model's numbers satisfy the recurrence.  The dictionary ORDER differs from the model's list
 (`counting_order_differs`: completion order of the recursion vs region order) — a full list equality is false.
 
-OPEN: `MoebiusOK` for every `RG.buildOn` graph, i.e. two facts about the MODEL alone (no generated code involved): `RG.moebius`
-satisfies the recurrence (its `byDepth` order lists ancestors first), and `RG.reach` over the cover graph is acyclic and stays
-inside the regions.  Checked by `decide` on an instance.
+`MoebiusOK` holds for every `RG.buildOn` graph (`moebiusOK_buildOn`, from `Proofs/RegionGraphGen4.lean`: `reach_min` / `reach_closed` /
+`reach_mono` — the breadth-first search of `RG.reach` is sound, reaches a fixed point within `regions.length` rounds, hence is
+transitive; `anc_longer` / `anc_card_lt` — on the cover graph ancestors are strictly longer regions and have fewer ancestors;
+`table_rec` / `moebius_rec` — the table of `RG.moebius`, filled in `byDepth` order, satisfies the recurrence).  Hence, with no
+hypothesis beyond duplicate-free regions and a depth bound above their total length: `gen_counting`, and the full field-by-field
+statements `gen_buildGraphNM`, `gen_buildGraphNS`, `genGraphN'_counting`.
 -/
 namespace PGM.C17G
 open PGM PGM.JT PGM.RG PGM.RGGen
@@ -931,5 +935,85 @@ theorem gen_gbp_tables_valid_built' (dom : Dom) (regions : List Region) (minimal
     exact hcl r ((mem_sortByLen regions r).mp hr)
 
 end builtN
+
+
+/-! ## `MoebiusOK` holds for every `RG.buildOn` graph — the counting numbers without hypothesis -/
+
+/-- the model's half of the uniqueness argument: `RG.moebius` solves the recurrence (`moebius_rec`), the ancestors of the cover graph
+are regions of strictly larger length (`anc_rank`), and any depth above the total length suffices -/
+theorem moebiusOK_buildOn (regions : List Region) (minimal : Bool) (hnd : regions.Nodup) (hreg : ∀ r ∈ regions, r.Nodup)
+    (fuel : Nat) (hfuel : (regions.map List.length).sum < fuel) :
+    MoebiusOK regions (RG.buildOn regions false minimal).ancestors
+      (fun r => RGG.intGet (RG.buildOn regions false minimal).counting r)
+      (fun r => (regions.map List.length).sum - r.length) fuel := by
+  refine ⟨?_, ?_, ?_⟩
+  · intro r hr
+    exact moebius_rec regions hnd hreg r hr
+  · intro r hr a ha
+    exact anc_rank regions hreg r hr a ha
+  · intro r _
+    show (regions.map List.length).sum - r.length < fuel
+    omega
+
+/-- **the regenerated counting numbers are the model's `RG.moebius`, region by region** (both variants), for every duplicate-free
+list of duplicate-free regions and every depth bound above the total length of the regions -/
+theorem gen_counting (dom : Dom) (regions : List Region) (minimal : Bool) (fuel : Nat) (hnd : regions.Nodup)
+    (hreg : ∀ r ∈ regions, r.Nodup) (hfuel : (regions.map List.length).sum < fuel) (r : Region) (hr : r ∈ regions) :
+    RGG.intGet (if minimal then (RGG.buildGraphNM (α := α) dom regions fuel).2.2.2.2.1 else (RGG.buildGraphNS (α := α) dom regions fuel).2.2.2.2.1) r
+      = RGG.intGet (RG.buildOn regions false minimal).counting r :=
+  gen_counting_eq_model dom regions minimal fuel hnd _ (moebiusOK_buildOn regions minimal hnd hreg fuel hfuel) r hr
+
+/-- **`build_graph` (non-convex, minimal) as regenerated is `RG.buildOn regions false true`, field by field**; the counting numbers
+look-up by look-up (the dictionary order differs, `counting_order_differs`) -/
+theorem gen_buildGraphNM (dom : Dom) (regions : List Region) (fuel : Nat) (hnd : regions.Nodup)
+    (hreg : ∀ r ∈ regions, r.Nodup) (hfuel : (regions.map List.length).sum < fuel) :
+    let out := RGG.buildGraphNM (α := α) dom regions fuel
+    let g := RG.buildOn regions false true
+    out.1 = g.children ∧ out.2.1 = g.parents ∧ out.2.2.1 = g.descendants ∧ out.2.2.2.1 = g.ancestors ∧
+    (∀ r ∈ regions, RGG.intGet out.2.2.2.2.1 r = RGG.intGet g.counting r) ∧
+    out.2.2.2.2.2.1 = g.N ∧ out.2.2.2.2.2.2.1 = g.D ∧ out.2.2.2.2.2.2.2.1 = g.B ∧
+    out.2.2.2.2.2.2.2.2 = (RG.initMessages dom g.messageOrder, g.messageOrder) := by
+  intro out g
+  obtain ⟨h1, h2, h3, h4, h5⟩ := gen_buildGraphNM_skeleton (α := α) dom regions fuel hnd
+  obtain ⟨n1, n2, n3⟩ := gen_buildGraphNM_NDB (α := α) dom regions fuel hnd
+  refine ⟨h1, h2, h3, h4, ?_, n1, n2, n3, ?_⟩
+  · intro r hr
+    exact gen_counting (α := α) dom regions true fuel hnd hreg hfuel r hr
+  · exact h5.trans (gen_initMessages_buildOn dom regions false true hnd)
+
+/-- **`build_graph` (non-convex, saturated) as regenerated is `RG.buildOn regions false false`, field by field** -/
+theorem gen_buildGraphNS (dom : Dom) (regions : List Region) (fuel : Nat) (hnd : regions.Nodup)
+    (hreg : ∀ r ∈ regions, r.Nodup) (hfuel : (regions.map List.length).sum < fuel) :
+    let out := RGG.buildGraphNS (α := α) dom regions fuel
+    let g := RG.buildOn regions false false
+    out.1 = g.children ∧ out.2.1 = g.parents ∧ out.2.2.1 = g.descendants ∧ out.2.2.2.1 = g.ancestors ∧
+    (∀ r ∈ regions, RGG.intGet out.2.2.2.2.1 r = RGG.intGet g.counting r) ∧
+    out.2.2.2.2.2.1 = g.N ∧ out.2.2.2.2.2.2.1 = g.D ∧ out.2.2.2.2.2.2.2.1 = g.B ∧
+    out.2.2.2.2.2.2.2.2 = (RG.initMessages dom g.messageOrder, g.messageOrder) := by
+  intro out g
+  obtain ⟨h1, h2, h3, h4, h5⟩ := gen_buildGraphNS_skeleton (α := α) dom regions fuel hnd
+  obtain ⟨n1, n2, n3⟩ := gen_buildGraphNS_NDB (α := α) dom regions fuel hnd
+  refine ⟨h1, h2, h3, h4, ?_, n1, n2, n3, ?_⟩
+  · intro r hr
+    exact gen_counting (α := α) dom regions false fuel hnd hreg hfuel r hr
+  · exact h5.trans (gen_initMessages_buildOn dom regions false false hnd)
+
+/-- the record built from regenerated fields only carries the model's counting numbers (its list is in region order) -/
+theorem genGraphN'_counting (dom : Dom) (regions : List Region) (minimal : Bool) (fuel : Nat) (hnd : regions.Nodup)
+    (hreg : ∀ r ∈ regions, r.Nodup) (hfuel : (regions.map List.length).sum < fuel) :
+    (genGraphN' dom regions minimal fuel).counting = (RG.buildOn regions false minimal).counting := by
+  have hm : (RG.buildOn regions false minimal).counting
+      = regions.map (fun r => (r, RGG.intGet (RG.buildOn regions false minimal).counting r)) := by
+    show RG.moebius regions (ancOf regions) = _
+    conv => lhs; unfold RG.moebius
+    apply List.map_congr_left
+    intro r hr
+    exact congrArg (Prod.mk r) (moebius_lookup regions r hr).symm
+  rw [hm]
+  unfold genGraphN'
+  apply List.map_congr_left
+  intro r hr
+  have := gen_counting (α := ℝ) dom regions minimal fuel hnd hreg hfuel r hr
+  cases minimal <;> simpa using this
 
 end PGM.C17G
